@@ -129,6 +129,9 @@ Proof.
   apply andb_true_iff in K. destruct K as [K1 K2]. rewrite (H _ K1), (IH K2). reflexivity.
 Qed.
 
+Lemma no_nl_app' a b : no_nl (a ++ b) = no_nl a && no_nl b.
+Proof. unfold no_nl. apply forallb_app. Qed.
+
 Lemma label_digits l : label_ok l = true -> forallb is_digit l = true.
 Proof.
   unfold label_ok, u32, uint. destruct (uint_loop _ l 0%N true) as [v r| | | |] eqn:E; try discriminate.
@@ -445,35 +448,44 @@ Section RT.
   Qed.
 
   (* value of a printed field line *)
+  Lemma blanks_no_nl pad : forallb is_blank pad = true -> no_nl pad = true.
+  Proof.
+    intros H. unfold no_nl. revert H. apply forallb_impl. intros b Hb. destruct b; simpl in *; try discriminate; reflexivity.
+  Qed.
+
+  Lemma field_line_pad a b pad x tl : forallb is_blank pad = true -> field_ok x = true ->
+    preceded (tag (tg a b)) parse_line (a :: b :: pad ++ x ++ eol ++ tl) =
+    POk (pad ++ x ++ eol) tl /\ trim (pad ++ x ++ eol) = x.
+  Proof.
+    intros Hp H. destruct (field_ok_parts x H) as (H1 & H2 & H3).
+    rewrite tagged_line. rewrite (app_assoc pad x). rewrite (app_assoc pad x eol).
+    unfold eol. rewrite (parse_line_eol crlf (pad ++ x) tl); [|rewrite no_nl_app', (blanks_no_nl pad Hp), H1; reflexivity].
+    split; [reflexivity|]. rewrite <- app_assoc. unfold eol_of. apply trim_padded_value; assumption.
+  Qed.
+
   Lemma field_line' a b x tl : field_ok x = true ->
     preceded (tag (tg a b)) parse_line (a :: b :: " " :: " " :: x ++ eol ++ tl) =
     POk (" " :: " " :: x ++ eol) tl /\ trim (" " :: " " :: x ++ eol) = x.
-  Proof.
-    intros H. destruct (field_ok_parts x H) as (H1 & H2 & H3).
-    rewrite tagged_line.
-    change (" " :: " " :: x ++ eol ++ tl) with ((" " :: " " :: x) ++ eol ++ tl).
-    unfold eol. rewrite (parse_line_eol crlf (" " :: " " :: x) tl); [|exact H1].
-    split; [reflexivity|]. unfold eol_of. apply trim_printed_value; assumption.
-  Qed.
+  Proof. intros H. exact (field_line_pad a b [" "; " "] x tl eq_refl H). Qed.
 
   Ltac field_step a b k :=
-    intros H; cbn [record_loop];
+    intros Hp H; cbn [record_loop];
     rewrite (parse_tag_known a b k _ eq_refl); cbn [pbind fst snd];
-    match goal with |- context [preceded (tag (tg a b)) parse_line (a :: b :: " " :: " " :: ?x ++ eol ++ ?tl)] =>
-      destruct (field_line' a b x tl H) as [E1 E2]; rewrite E1; cbn [pbind]; rewrite E2; reflexivity
+    match goal with |- context [preceded (tag (tg a b)) parse_line (a :: b :: ?pad ++ ?x ++ eol ++ ?tl)] =>
+      destruct (field_line_pad a b pad x tl Hp H) as [E1 E2]; rewrite E1; cbn [pbind]; rewrite E2; reflexivity
     end.
 
-  Lemma loop_ac f x tl r : field_ok x = true ->
-    loop (S f) ("A" :: "C" :: " " :: " " :: x ++ eol ++ tl) r = loop f tl (set_ac x r).
+  Lemma loop_ac f pad x tl r : forallb is_blank pad = true -> field_ok x = true ->
+    loop (S f) ("A" :: "C" :: pad ++ x ++ eol ++ tl) r = loop f tl (set_ac x r).
   Proof. field_step "A" "C" TAC. Qed.
-  Lemma loop_id f x tl r : field_ok x = true ->
-    loop (S f) ("I" :: "D" :: " " :: " " :: x ++ eol ++ tl) r = loop f tl (set_id x r).
+  Lemma loop_id f pad x tl r : forallb is_blank pad = true -> field_ok x = true ->
+    loop (S f) ("I" :: "D" :: pad ++ x ++ eol ++ tl) r = loop f tl (set_id x r).
   Proof. field_step "I" "D" TID. Qed.
-  Lemma loop_na f x tl r : field_ok x = true ->
-    loop (S f) ("N" :: "A" :: " " :: " " :: x ++ eol ++ tl) r = loop f tl (set_na x r).
+  Lemma loop_na f pad x tl r : forallb is_blank pad = true -> field_ok x = true ->
+    loop (S f) ("N" :: "A" :: pad ++ x ++ eol ++ tl) r = loop f tl (set_na x r).
   Proof. field_step "N" "A" TNA. Qed.
-  Lemma loop_de f x tl r : field_ok x = true ->
-    loop (S f) ("D" :: "E" :: " " :: " " :: x ++ eol ++ tl) r = loop f tl (set_de x r).
+  Lemma loop_de f pad x tl r : forallb is_blank pad = true -> field_ok x = true ->
+    loop (S f) ("D" :: "E" :: pad ++ x ++ eol ++ tl) r = loop f tl (set_de x r).
   Proof. field_step "D" "E" TDE. Qed.
 
   Lemma loop_end f term r : term = eol \/ term = [] -> loop (S f) ("/" :: "/" :: term) r = POk r [].
@@ -494,8 +506,8 @@ Section RT.
     destruct Hk as [->|[->|[->| ->]]]; reflexivity.
   Qed.
 
-  Lemma loop_field f (k : fieldk) x tl r : field_ok x = true ->
-    loop (S f) (fst (field_tag k) :: snd (field_tag k) :: " " :: " " :: x ++ eol ++ tl) r =
+  Lemma loop_field f (k : fieldk) pad x tl r : forallb is_blank pad = true -> field_ok x = true ->
+    loop (S f) (fst (field_tag k) :: snd (field_tag k) :: pad ++ x ++ eol ++ tl) r =
     loop f tl (set_field k x r).
   Proof. destruct k; [apply loop_ac|apply loop_id|apply loop_na|apply loop_de]. Qed.
 
@@ -736,7 +748,7 @@ Section RT2.
      stops there *)
   Lemma item_head eol' it tl : exists h X, print_item eol' it ++ tl = h :: X /\ is_digit h = false.
   Proof.
-    destruct it as [num xref lines|k v|k v| |t ts|d m y c au|po sep syms rows];
+    destruct it as [num xref lines|k pad v|k v| |t ts|d m y c au|po sep syms rows];
       cbn [print_item app xx_line flat_map].
     - eexists _, _; split; reflexivity.
     - destruct k; eexists _, _; split; reflexivity.
@@ -758,14 +770,14 @@ Section RT2.
      of a reference block stops there *)
   Lemma item_stop2 eol' it tl : stop2 (print_item eol' it ++ tl).
   Proof.
-    destruct it as [num xref lines|k v|k v| |t ts|d m y c au|po sep syms rows];
+    destruct it as [num xref lines|k pad v|k v| |t ts|d m y c au|po sep syms rows];
       cbn [print_item app xx_line flat_map];
       try (destruct k); try (destruct po); repeat split.
   Qed.
 
   Lemma item_stopcc eol' it tl : is_cc it = false -> stopcc (print_item eol' it ++ tl).
   Proof.
-    destruct it as [num xref lines|k v|k v| |t ts|d m y c au|po sep syms rows]; intros H; try discriminate;
+    destruct it as [num xref lines|k pad v|k v| |t ts|d m y c au|po sep syms rows]; intros H; try discriminate;
       cbn [print_item app xx_line]; try (destruct k); try (destruct po); reflexivity.
   Qed.
 
@@ -863,15 +875,16 @@ Section RT2.
     exists F', length (h :: X) < F' /\ loop F (print_item eol it ++ h :: X) r = loop F' (h :: X) (apply_item al r it).
   Proof.
     intros Hok Hh Hst Hcc L. pose proof eol_length as E.
-    destruct it as [num xref lines|k v|k v| |t ts|d m y c au|po sep syms rows]; cbn [apply_item] in *.
+    destruct it as [num xref lines|k pad v|k v| |t ts|d m y c au|po sep syms rows]; cbn [apply_item] in *.
     - cbn [item_ok] in Hok. apply andb_true_iff in Hok. destruct Hok as [Hok Hl].
       apply andb_true_iff in Hok. destruct Hok as [Hn Hx].
       destruct F as [|F]; [lia|]. exists F. split.
       + cbn [print_item] in L. cbn [app length] in L. rewrite !app_length in L. cbn [length] in *. lia.
       + apply loop_ref; assumption.
     - cbn [print_item] in *. cbn [app] in *. rewrite <- !app_assoc in *. cbn [length] in L. rewrite !app_length in L.
+      cbn [item_ok] in Hok. apply andb_true_iff in Hok. destruct Hok as [Hpad Hv].
       destruct F as [|F]; [lia|]. exists F. split; [cbn [length] in *; lia|].
-      unfold eol. apply loop_field. exact Hok.
+      unfold eol. apply loop_field; assumption.
     - cbn [print_item] in *. cbn [app] in *. rewrite <- !app_assoc in *. cbn [length] in L. rewrite !app_length in L.
       apply andb_true_iff in Hok. destruct Hok as [H1 H2].
       destruct F as [|F]; [lia|]. exists F. split; [cbn [length] in *; lia|].
